@@ -48,6 +48,49 @@ def _load_by(route, text):
     return Generic.create(content=text, strict=False)
 
 
+# Bystander documents (opt-in per check): exports already taken from earlier documents of the run are taken again after a later
+# import - a Document owes nothing to the texts that are imported after it.
+_BYSTANDER = {'ctx': None, 'ring': [], 'n': 0}
+
+
+def enable_bystanders(ctx):
+    _BYSTANDER.update(ctx=ctx, ring=[], n=0)
+
+
+def forget_bystander(doc=None):
+    """The harness is about to hand `doc` to a call that is known to change it (to_transposed shares its nodes with the source -
+    C15's finding): its recorded exports are no longer expected to repeat.  Without argument: forget all."""
+    _BYSTANDER['ring'] = [r for r in _BYSTANDER['ring'] if doc is not None and r[0] is not doc]
+
+
+def _bystander_record(doc, kw, out, exc):
+    b = _BYSTANDER
+    if b['ctx'] is None or exc is not None or doc is None:
+        return
+    b['n'] += 1
+    if b['n'] % 7 == 0 or len(b['ring']) < 4:
+        b['ring'].append((doc, dict(kw), out))
+        del b['ring'][:-6]
+
+
+def _bystander_check():
+    b = _BYSTANDER
+    ctx = b['ctx']
+    if ctx is None or not b['ring']:
+        return
+    for doc, kw, out in b['ring'][-3:]:
+        ctx.mon('bystander_exports_retaken_after_a_later_import')
+        try:
+            again, exc = kp.dumps(doc, **kw), None
+        except Exception as e:  # noqa
+            again, exc = None, e
+        if again != out:
+            ctx.violation('earlier-document-changed-by-later-import', f'an export {str(kw)[:120]} of a document imported earlier in the run '
+                          f'{"raises " + type(exc).__name__ if exc is not None else "differs (" + str(len(again)) + " vs " + str(len(out)) + " chars)"} '
+                          f'after a later import', {'options': str(kw), 'first': out, 'again': again if exc is None else repr(exc)})
+            b['ring'] = [r for r in b['ring'] if r[0] is not doc]
+
+
 def loads(text):
     """-> (doc, errors, exception)"""
     # a function of the text and of how often this process has imported it (so a replay takes the same door, and two imports of
@@ -60,17 +103,20 @@ def loads(text):
     route_counts[route] = route_counts.get(route, 0) + 1
     try:
         doc, errs = _load_by(route, text)
-        return doc, errs, None
     except Exception as e:  # noqa
         return None, None, e
+    _bystander_check()
+    return doc, errs, None
 
 
 def dumps(doc, **kw):
     """-> (text, exception)"""
     try:
-        return kp.dumps(doc, **kw), None
+        out = kp.dumps(doc, **kw)
     except Exception as e:  # noqa
         return None, e
+    _bystander_record(doc, kw, out, None)
+    return out, None
 
 
 def grid(text):
@@ -230,6 +276,24 @@ def _freeze(v):
     return v
 
 
+_LONG_EXPORTER = [None]
+
+
+def long_exporter():
+    """One kernpy.Exporter object that lives as long as the process - the caller who builds an exporter once and uses it for every
+    score and every selection (the functions of the package build one per call)."""
+    if _LONG_EXPORTER[0] is None:
+        _LONG_EXPORTER[0] = kp.Exporter()
+    return _LONG_EXPORTER[0]
+
+
+def export_with(doc, options, n):
+    """The n-th export through an options object: through the package function or through the long-lived Exporter object, in turn."""
+    if n % 2:
+        return long_exporter().export_string(doc, options)
+    return kp.export(doc, options)
+
+
 class SharedOptions:
     """One ExportOptions object that lives as long as a run - the caller who builds his options once and keeps using them.
     Before a use only the fields whose WANTED value differs from the value assigned last time are assigned (values come from
@@ -275,7 +339,7 @@ class SharedOptions:
         before = {f: _freeze(getattr(self.o, f)) for f in OPT_FIELDS}
         self.uses += 1
         try:
-            out, exc = kp.export(doc, self.o), None
+            out, exc = export_with(doc, self.o, self.uses), None
         except Exception as e:  # noqa
             out, exc = None, e
         after = {f: _freeze(getattr(self.o, f)) for f in OPT_FIELDS}
@@ -352,7 +416,7 @@ def fixed_options_check(ctx, doc, kw, ref_text, ref_exc, case, key='options-obje
     ent[1] += 1
     ctx.mon('exports_through_fixed_options_objects')
     try:
-        out, exc = kp.export(doc, ent[0]), None
+        out, exc = export_with(doc, ent[0], ent[1]), None
     except Exception as e:  # noqa
         out, exc = None, e
     if same_outcome(ref_text, ref_exc, out, exc):
